@@ -89,6 +89,25 @@ let () =
               let (el, ec) = part_end pt in
               Printf.sprintf "%s %d %d %d %d [%s] [%s]" (ptname pt.p_type) (int_of_n pt.p_line) (int_of_z pt.p_col)
                 (int_of_n el) (int_of_z ec) (pstr pt.p_spacing) (pstr pt.p_value)) parts)))
+       | "dfa" ->
+         (* rx in prefix form: 0 Empty | 1 Eps | 2 a Sym | 3 Cat | 4 Alt | 5 Star ; then arcs and finals *)
+         let fuel = next () in
+         let rec rx () = match next () with
+           | 0 -> Empty | 1 -> Eps0 | 2 -> Sym (nextn ()) | 3 -> let a = rx () in let b = rx () in Cat0 (a, b)
+           | 4 -> let a = rx () in let b = rx () in Alt0 (a, b) | _ -> Star0 (rx ()) in
+         let r = rx () in
+         let na = next () in
+         let arcs = List.init na (fun _ -> let f = nextn () in let l = nextn () in let t = nextn () in ((f, l), t)) in
+         let nf = next () in
+         let finals = List.init nf (fun _ -> nextn ()) in
+         print_endline (if check_rule (nat_of_int fuel) r { arcs = arcs; finals = finals } then "true" else "false")
+       | "cache" ->
+         let fa = next () = 1 in let fb = next () = 1 in
+         let n = next () in
+         let ops = List.init n (fun _ -> match next () with
+           | 0 -> let w1 = nat_of_int (next ()) in let w2 = nat_of_int (next ()) in let w3 = nat_of_int (next ()) in Parse (w1, w2, w3)
+           | 1 -> Write | 2 -> DropMemory | _ -> DeleteDisk) in
+         print_endline (String.concat " " (List.map (fun (c, v) -> Printf.sprintf "%d:%d" (int_of_nat c) (int_of_nat v)) (cache_run fa fb ops)))
        | "plans" ->
          let v = nextn () in
          print_endline (String.concat "|" (List.map (fun (q, tr) ->
